@@ -294,10 +294,25 @@ func (c *channel) sender() {
 }
 
 func (c *channel) receiver() {
+	// lastStream is the stream this goroutine reads from; nil once it has
+	// seen the stream fail (and failed the requests pending on it)
+	c.streamMut.RLock()
+	lastStream := c.gorumsStream
+	c.streamMut.RUnlock()
 	for {
 		resp := newMessage(responseType)
 		vGate("RcvRLockWait", c.node.ID(), 0)
 		c.streamMut.RLock()
+		if lastStream != nil && lastStream != c.gorumsStream {
+			// The sender re-created the stream before this goroutine noticed that
+			// the old one had failed. Requests that still wait for a reply on the
+			// old stream will never get one: respond with a stream is down error.
+			lastStream = c.gorumsStream
+			c.streamMut.RUnlock()
+			c.cancelPendingMsgs()
+			continue
+		}
+		lastStream = c.gorumsStream
 		vEmit("RecvWait", c.node.ID(), 0)
 		err := c.gorumsStream.RecvMsg(resp)
 		if err != nil {
@@ -305,6 +320,7 @@ func (c *channel) receiver() {
 			vEmit("RecvErr", c.node.ID(), 0)
 			c.streamMut.RUnlock()
 			c.setLastErr(err)
+			lastStream = nil
 			// we only reach this point when the stream failed AFTER a message
 			// was sent and we are waiting for a reply. We thus need to respond
 			// with a stream is down error on all pending messages.
